@@ -1089,6 +1089,9 @@ func (e *Exec) needBitAxioms() {
 	e.globalAxiom("(assert (forall ((a Int) (b Int)) (! (=> (and (>= a 0) (>= b 0)) (and (>= (uf_and a b) 0) (<= (uf_and a b) a) (<= (uf_and a b) b))) :pattern ((uf_and a b)))))")
 	e.globalAxiom("(assert (forall ((a Int) (b Int)) (! (=> (and (>= a 0) (>= b 0)) (and (>= (uf_or a b) a) (>= (uf_or a b) b) (<= (uf_or a b) (+ a b)))) :pattern ((uf_or a b)))))")
 	e.globalAxiom("(assert (forall ((a Int) (b Int)) (! (=> (and (>= a 0) (>= b 0)) (and (>= (uf_xor a b) 0) (<= (uf_xor a b) (+ a b)))) :pattern ((uf_xor a b)))))")
+	// disjoint bit ranges: low 16 bits | multiple of 65536 (the (key<<16)|low idiom), either operand order; likewise for 32 bits
+	e.globalAxiom("(assert (forall ((a Int) (b Int)) (! (=> (and (<= 0 a) (< a 65536) (>= b 0) (= (mod b 65536) 0)) (and (= (uf_or a b) (+ a b)) (= (uf_or b a) (+ a b)))) :pattern ((uf_or a b)) :pattern ((uf_or b a)))))")
+	e.globalAxiom("(assert (forall ((a Int) (b Int)) (! (=> (and (<= 0 a) (< a 4294967296) (>= b 0) (= (mod b 4294967296) 0)) (and (= (uf_or a b) (+ a b)) (= (uf_or b a) (+ a b)))) :pattern ((uf_or a b)) :pattern ((uf_or b a)))))")
 }
 
 // convert implements the Go conversion T(v).
